@@ -12,3 +12,5 @@ done
 git -C /repo checkout -- . ; git -C /repo status --short | head -3
 rm -rf /verif/evidence && mv /tmp/evidence_backup /verif/evidence
 rm -f /verif/replays/*.json   # replays written while a patch was applied are not about the tree
+# the harness binary was last built against the patched tree: rebuild it against the restored one
+( cd /verif/harness && CARGO_NET_OFFLINE=true cargo build --release --offline >/dev/null 2>&1 )
